@@ -220,7 +220,8 @@ def replay_trunc_case(case):
 
     hh = zlib.crc32(repr(frec).encode()) + seed
     # twin 1: the same file stored as DAQmx raw data (one raw buffer per channel, width = value size)
-    twin = daqmx_twin(frec, fd, tys, hh) if not fails else None
+    twins_on = case.get("twins", True)
+    twin = daqmx_twin(frec, fd, tys, hh) if (not fails and twins_on) else None
     if twin is not None:
         fd2, tys2 = twin
         e2 = enc.encode(fd2, seed)
@@ -229,7 +230,7 @@ def replay_trunc_case(case):
         obs["daqmx_twins"] = 1
     # twin 2: channels a segment does not write stay in its object list, declared "no data" (what LabVIEW does when a
     # channel pauses): same raw data, longer metadata
-    fd3 = carry_twin(fd, hh) if not fails else None
+    fd3 = carry_twin(fd, hh) if (not fails and twins_on) else None
     if fd3 is not None:
         e3 = enc.encode(fd3, seed)
         full3 = {nm: proj.expected_elems(tys[nm], e3.values.get(PATH[nm], [])) for nm in tys}
